@@ -330,6 +330,8 @@ def callgraph(run):
     srcs = [os.path.relpath(s, run.tree) for s in run.lib_sources(entry=True)]
     file_statics = {}
     run._life_statics = file_statics
+    static_objs = set()
+    run._life_static_objs = static_objs
 
     def one(rel):
         t = clang_ast2(run, rel)
@@ -355,6 +357,13 @@ def callgraph(run):
             walk(node)
             res.append((name, rel, sorted(cs), bool(ind), node, statics))
         file_statics[rel] = statics_of(t)
+        # objects with static storage defined here: file scope (not `extern` declarations) and function-local statics ("function:name")
+        for n in t.get("inner", []):
+            if n.get("kind") == "VarDecl" and n.get("storageClass") != "extern" and not n.get("isImplicit") and n.get("name"):
+                static_objs.add(n["name"])
+        for (name, _, _, _, _, st) in res:
+            for v in st:
+                static_objs.add("%s:%s" % (name, v))
         return res, taken
     with ThreadPoolExecutor(NCPU) as ex:
         parts = list(ex.map(one, srcs))
@@ -419,10 +428,11 @@ def tr_resid(run):
     out.append("Definition lib_fns : list libfn :=\n  [%s].\n" % ";\n   ".join(rows))
     out.append("Definition address_taken : list string :=\n  [%s].\n" % "; ".join(q(n) for n in sorted(taken) if n in fns))
     out.append("Definition call_cycles : list string :=\n  [%s].\n" % "; ".join(q(n) for n in sorted(set(cyc))))
+    out.append("Definition static_objects : list string :=\n  [%s].\n" % "; ".join(q(n) for n in sorted(run._life_static_objs)))
     ext = sorted(set(c for n in fns for c in fns[n][1] if c not in fns))
     out.append("Definition ast_externals : list string :=\n  [%s].\n" % "; ".join(q(n) for n in ext))
     run.write_gen("Gen_Resid.v", "\n".join(out))
-    info = {"functions": len(fns), "externals": ext, "touching": sorted(touch), "skeletons": nsk, "address_taken": sorted(n for n in taken if n in fns), "cycles": sorted(set(cyc)),
+    info = {"functions": len(fns), "static_objects": sorted(run._life_static_objs), "externals": ext, "touching": sorted(touch), "skeletons": nsk, "address_taken": sorted(n for n in taken if n in fns), "cycles": sorted(set(cyc)),
             "statics": {n: v[4] for n, v in fns.items() if v[4]}, "files": {n: v[0] for n, v in fns.items()}}
     run.consts["resid"] = info
     return info
